@@ -219,6 +219,29 @@ func (e *Engine) execFrom(act *Activation, p *Path, blk *ssa.BasicBlock, start i
 			var rs []Result
 			if u, ok := x.(*ssa.UnOp); ok {
 				if u.Op != token.ARROW {
+					if u.Op == token.MUL {
+						if _, isChan := u.Type().Underlying().(*types.Chan); isChan {
+							if pt, ok := e.val(p, u.X).(Ptr); ok && len(pt.alts) > 1 {
+								// channels have no guarded alternatives: keep the pointer's targets on separate paths
+								if !e.derefCheck(p, pt, "load") {
+									return
+								}
+								for _, al := range pt.alts {
+									if !e.feasible(p.st.G, al.g) {
+										continue
+									}
+									q := e.clonePath(p)
+									e.nForks++
+									q.st.G = e.And(q.st.G, al.g)
+									one := al
+									one.g = e.True
+									q.regs[u] = e.load(q.st, Ptr{[]PtrAlt{one}})
+									e.execFrom(act, q, blk, i+1)
+								}
+								return
+							}
+						}
+					}
 					if !e.execSimple(act, p, in) {
 						return
 					}
@@ -402,7 +425,7 @@ func (e *Engine) execSimple(act *Activation, p *Path, in ssa.Instruction) bool {
 	case *ssa.MakeMap:
 		id := e.newObj(p.st, nil)
 		e.obj(p.st, id).kind = kindMap
-		p.regs[x] = MapV{obj: id}
+		p.regs[x] = e.mkMap(id)
 	case *ssa.MapUpdate:
 		m, ok := e.val(p, x.Map).(MapV)
 		if !ok {
@@ -419,7 +442,7 @@ func (e *Engine) execSimple(act *Activation, p *Path, in ssa.Instruction) bool {
 	case *ssa.Send:
 		c, ok := e.val(p, x.Chan).(ChanV)
 		if !ok || c.obj == 0 {
-			unsup("send on nil/undefined channel")
+			unsup("send on nil/undefined channel (%T %v)", e.val(p, x.Chan), e.val(p, x.Chan))
 		}
 		o := e.wobj(p.st, c.obj)
 		if cl := o.cells[0].(*Term); !cl.IsFalse() {
@@ -463,11 +486,10 @@ func (e *Engine) execSimple(act *Activation, p *Path, in ssa.Instruction) bool {
 			// snapshot of the entries at range time (insertion order)
 			var cells []Value
 			cells = append(cells, e.Const(64, 0))
-			if xv.obj != 0 {
-				nn := e.mapNonNil(xv)
-				for _, c := range e.obj(p.st, xv.obj).cells {
+			for _, al := range xv.alts {
+				for _, c := range e.obj(p.st, al.obj).cells {
 					en := c.(StructV)
-					cells = append(cells, StructV{[]Value{en.f[0], en.f[1], e.And(nn, en.f[2].(*Term))}})
+					cells = append(cells, StructV{[]Value{en.f[0], en.f[1], e.And(al.g, en.f[2].(*Term))}})
 				}
 			}
 			p.regs[x] = IterV{obj: e.newObj(p.st, cells), m: xv}
@@ -796,18 +818,64 @@ func (e *Engine) ptrEq(a, b Ptr) *Term {
 	return eq
 }
 
+// lenCandidates: the concrete values a (possibly merged) length can take, with their conditions
+func (e *Engine) lenCandidates(t *Term, what string) ([]uint64, []*Term) {
+	if t.IsConst() {
+		return []uint64{t.val}, []*Term{e.True}
+	}
+	seen := map[uint64]bool{}
+	budget := 4096
+	if !iteLeaves(t, seen, &budget) || len(seen) > 32 {
+		unsup("%s with symbolic length", what)
+	}
+	var vals []uint64
+	for v := range seen {
+		vals = append(vals, v)
+	}
+	sort.Slice(vals, func(a, b int) bool { return vals[a] < vals[b] })
+	conds := make([]*Term, len(vals))
+	for i, v := range vals {
+		conds[i] = e.Eq(t, e.Const(t.w, v))
+	}
+	return vals, conds
+}
+
 func (e *Engine) strEq(p *Path, a, b StrV) *Term {
+	if a.len == b.len && e.identical(a.p, b.p) {
+		return e.True
+	}
 	if !a.len.IsConst() || !b.len.IsConst() {
-		if a.len == b.len && e.identical(a.p, b.p) {
-			return e.True
+		// merged strings: equal iff they have the same length n and agree on their n bytes, for some candidate n
+		va, ca := e.lenCandidates(a.len, "comparison of strings")
+		vb, cb := e.lenCandidates(b.len, "comparison of strings")
+		eq := e.False
+		for i, n := range va {
+			for j, m := range vb {
+				if n != m {
+					continue
+				}
+				c := e.And(ca[i], cb[j])
+				if c.IsFalse() {
+					continue
+				}
+				same := e.True
+				for k := 0; k < int(n); k++ {
+					kk := e.Const(64, uint64(k))
+					x, okx := e.loadStrByte(p.st, a, kk).(*Term)
+					y, oky := e.loadStrByte(p.st, b, kk).(*Term)
+					if !okx || !oky {
+						same = e.False // an alternative too short for this length: infeasible under c
+						break
+					}
+					same = e.And(same, e.Eq(x, y))
+				}
+				eq = e.Or(eq, e.And(c, same))
+			}
 		}
-		unsup("comparison of strings with symbolic length")
+		return eq
 	}
 	if a.len.val != b.len.val {
 		return e.False
-	}
-	if e.identical(a.p, b.p) {
-		return e.True
 	}
 	eq := e.True
 	for k := 0; k < int(a.len.val); k++ {
@@ -837,7 +905,30 @@ func (e *Engine) strLess(p *Path, a, b StrV) *Term {
 }
 
 func (e *Engine) strConcat(p *Path, a, b StrV) Value {
-	na, nb := e.concLen(a.len, "string +"), e.concLen(b.len, "string +")
+	if !a.len.IsConst() || !b.len.IsConst() {
+		va, ca := e.lenCandidates(a.len, "string +")
+		vb, cb := e.lenCandidates(b.len, "string +")
+		var res Value
+		for i, n := range va {
+			for j, m := range vb {
+				c := e.And(ca[i], cb[j])
+				if c.IsFalse() {
+					continue
+				}
+				one := e.strConcat(p, StrV{a.p, e.Const(64, n)}, StrV{b.p, e.Const(64, m)})
+				if res == nil {
+					res = one
+				} else {
+					res = e.mergeValue(c, one, res)
+				}
+			}
+		}
+		if res == nil {
+			return StrV{len: e.Const(64, 0)}
+		}
+		return res
+	}
+	na, nb := int(a.len.val), int(b.len.val)
 	if na == 0 {
 		return b
 	}
@@ -911,7 +1002,7 @@ func (e *Engine) valueEq(p *Path, a, b Value, t types.Type) *Term {
 		return e.BoolC(x == b.(ChanV))
 	case MapV:
 		y := b.(MapV)
-		if x.obj != 0 && y.obj != 0 {
+		if len(x.alts) != 0 && len(y.alts) != 0 {
 			unsup("comparison of two non-nil maps")
 		}
 		// m == nil
